@@ -56,6 +56,79 @@ var refWrapper = map[string]bool{"AddRef": true, "addRef": true, "segmentLocs": 
 var acquireMethods = map[string]bool{"addRef": true, "AddRef": true}
 var releaseMethods = map[string]bool{"decRef": true, "DecRef": true, "Close": true}
 
+func init() {
+	register(&Rule{
+		ID: "REF-10",
+		Doc: "Consumed parameters: a function that releases (Close/DecRef/decRef) one of its reference-counted parameters on some path has taken over the caller's reference, " +
+			"so every path from its entry to a return releases that parameter exactly once, hands it on (stored, returned, passed to a consuming callee) or runs where the parameter is nil. " +
+			"Sibling paths of one function must agree on who owns the reference (mergerMain's error branch vs its success path).",
+		Props: []string{"C15", "C02"},
+		Floor: 2,
+		Run:   ruleRef10,
+	})
+}
+
+func ruleRef10(c *Ctx) []*Ob {
+	o := newObs(c, "REF-10")
+	for _, f := range c.Funcs {
+		if c.isHarness(f) || len(f.Blocks) == 0 {
+			continue
+		}
+		fn := c.fname(f)
+		evs := refEvents(c, f)
+		byParam := map[*ssa.Parameter][]refEvent{}
+		for _, e := range evs {
+			if e.kind != "rel" && e.kind != "defer-rel" {
+				continue
+			}
+			for _, p := range f.Params {
+				if canonKey(e.tok) == canonKey(p) && refCountedType(p.Type()) {
+					byParam[p] = append(byParam[p], e)
+				}
+			}
+		}
+		for _, p := range f.Params {
+			g := byParam[p]
+			if len(g) == 0 {
+				continue
+			}
+			isRecv := f.Signature.Recv() != nil && len(f.Params) > 0 && f.Params[0] == p
+			construct := "parameter " + p.Name()
+			if isRecv {
+				construct = "receiver " + p.Name()
+			}
+			if isRecv && releaseMethods[f.Name()] {
+				o.trivial(fn, construct, c.pos(f.Pos()), "the function is itself a release method of its receiver")
+				continue
+			}
+			// all events of this object (acquisitions inside f count as usual)
+			var all []refEvent
+			nacq := 0
+			for _, e := range evs {
+				if canonKey(e.tok) == canonKey(p) {
+					all = append(all, e)
+					if e.kind == "acq" {
+						nacq++
+					}
+				}
+			}
+			if nacq > 0 {
+				continue // acquired here as well: a local pairing, decided by REF-1
+			}
+			verdict, why := balanceWalkSeeded(c, f, all, p)
+			switch verdict {
+			case "ok":
+				o.add(fn, construct, c.pos(f.Pos()), true, "the reference taken over from the caller: "+why)
+			case "escapes":
+				o.trivial(fn, construct, c.pos(f.Pos()), "handed on on every path ("+why+")")
+			default:
+				o.add(fn, construct, c.pos(f.Pos()), false, "the function consumes the caller's reference on "+p.Name()+" on some paths but: "+why)
+			}
+		}
+	}
+	return o.list
+}
+
 func refCountedType(t types.Type) bool {
 	switch typeName(t) {
 	case "segmentStack", "Footer", "mmapRef", "FileRef", "SnapshotWrapper", "Store":
@@ -441,6 +514,12 @@ func calleeShort(i ssa.Instruction) string {
 // balanceWalk explores every path of f from its entry, counting the
 // acquisitions and releases of one object.
 func balanceWalk(c *Ctx, f *ssa.Function, g []refEvent) (string, string) {
+	return balanceWalkSeeded(c, f, g, nil)
+}
+
+// balanceWalkSeeded: with seed != nil the walk starts with one reference
+// already held on seed (a parameter whose reference the function consumes).
+func balanceWalkSeeded(c *Ctx, f *ssa.Function, g []refEvent, seed ssa.Value) (string, string) {
 	evAt := map[ssa.Instruction]refEvent{}
 	key := canonKey(g[0].tok)
 	for _, e := range g {
@@ -462,6 +541,52 @@ func balanceWalk(c *Ctx, f *ssa.Function, g []refEvent) (string, string) {
 	balancedReturn, escapedSomewhere, anyReturn := false, "", false
 	var work []state
 	work = append(work, state{b: f.Blocks[0], t: newTracker(), et: newTracker()})
+	// borrowCalls (seeded walk only): a call that receives the parameter and after which a release of the
+	// parameter is still reachable did not take the reference over - the function itself says so on that path.
+	borrowCalls := map[ssa.Instruction]bool{}
+	if seed != nil {
+		work[0].cnt, work[0].acquired = 1, true
+		work[0].t.vals[seed] = true
+		isRelOfSeed := func(i ssa.Instruction) bool {
+			ci, ok := i.(ssa.CallInstruction)
+			if !ok {
+				return false
+			}
+			recv, isRel := isReleaseCall(ci)
+			if !isRel {
+				return false
+			}
+			for _, og := range origins(recv) {
+				if og == seed {
+					return true
+				}
+			}
+			return false
+		}
+		eachInstr(f, func(i ssa.Instruction) {
+			ci, ok := i.(ssa.CallInstruction)
+			if !ok || isRelOfSeed(i) {
+				return
+			}
+			if _, isGo := i.(*ssa.Go); isGo {
+				return
+			}
+			passes := false
+			for _, a := range ci.Common().Args {
+				for _, og := range origins(a) {
+					if og == seed {
+						passes = true
+					}
+				}
+			}
+			if !passes {
+				return
+			}
+			if _, ok := reachableFrom(i, isRelOfSeed, nil, nil); ok {
+				borrowCalls[i] = true
+			}
+		})
+	}
 	steps := 0
 	for len(work) > 0 && bad == "" {
 		s := work[len(work)-1]
@@ -515,7 +640,7 @@ func balanceWalk(c *Ctx, f *ssa.Function, g []refEvent) (string, string) {
 					continue
 				}
 			}
-			if s.acquired {
+			if s.acquired && !borrowCalls[ins] {
 				if esc, how := tokenEscapesAt(ins, s.t, key); esc {
 					escapedSomewhere = how
 					stop = true
@@ -658,42 +783,102 @@ func oldValueHandled(c *Ctx, f *ssa.Function, st access, own map[*types.Var]bool
 	if len(loads) == 0 {
 		return false, ""
 	}
-	isOld := func(v ssa.Value) bool {
-		return backSlice(v, func(w ssa.Value) bool {
-			for _, l := range loads {
-				if w == l {
-					return true
-				}
-			}
-			return false
-		})
-	}
-	found, how := false, ""
-	eachInstr(f, func(i ssa.Instruction) {
-		if found {
-			return
+	// which loads are handled: their value flows into a release, another owning field or a return
+	handled := map[ssa.Value]string{}
+	for _, l := range loads {
+		l := l
+		isOld := func(v ssa.Value) bool {
+			return backSlice(v, func(w ssa.Value) bool { return w == l })
 		}
-		switch x := i.(type) {
-		case ssa.CallInstruction:
-			if recv, ok := isReleaseCall(x); ok && isOld(recv) {
-				found, how = true, "the old value is released ("+calleeShort(i)+" at "+c.instrPos(i)+")"
-			}
-		case *ssa.Store:
-			if x == st.Instr {
+		eachInstr(f, func(i ssa.Instruction) {
+			if handled[l] != "" {
 				return
 			}
-			if fv, _ := asFieldAddr(x.Addr); fv != nil && own[fv] && fv != st.Field && isOld(x.Val) {
-				found, how = true, "the old value is moved into "+fv.Name()+" (transfer)"
-			}
-		case *ssa.Return:
-			for _, rv := range x.Results {
-				if isOld(rv) && !isExportedRoot(f) {
-					found, how = true, "the old value is returned to the caller, which takes over the reference"
+			switch x := i.(type) {
+			case ssa.CallInstruction:
+				if recv, ok := isReleaseCall(x); ok && isOld(recv) {
+					handled[l] = "the old value is released (" + calleeShort(i) + " at " + c.instrPos(i) + ")"
+				}
+			case *ssa.Store:
+				if x == st.Instr {
+					return
+				}
+				if fv, _ := asFieldAddr(x.Addr); fv != nil && own[fv] && fv != st.Field && isOld(x.Val) {
+					handled[l] = "the old value is moved into " + fv.Name() + " (transfer)"
+				}
+			case *ssa.Return:
+				for _, rv := range x.Results {
+					if isOld(rv) && !isExportedRoot(f) {
+						handled[l] = "the old value is returned to the caller, which takes over the reference"
+					}
 				}
 			}
+		})
+	}
+	if len(handled) == 0 {
+		return false, ""
+	}
+	// forward must-analysis: on every path to the store, a handled load of the field happened since the
+	// field was last written (the old value was picked up before it is overwritten).
+	isFieldStore := func(i ssa.Instruction) bool {
+		sx, ok := i.(*ssa.Store)
+		if !ok {
+			return false
 		}
-	})
-	return found, how
+		fv, base := asFieldAddr(sx.Addr)
+		return fv == st.Field && canonKey(base) == baseKey
+	}
+	out := map[*ssa.BasicBlock]bool{}
+	for _, b := range f.Blocks {
+		out[b] = true
+	}
+	atStore, how := true, ""
+	transfer := func(b *ssa.BasicBlock, in bool, record bool) bool {
+		cur := in
+		for _, i := range b.Instrs {
+			if v, ok := i.(ssa.Value); ok && handled[v] != "" {
+				cur = true
+				if how == "" {
+					how = handled[v]
+				}
+			}
+			if isFieldStore(i) {
+				if record && i == st.Instr {
+					atStore = cur
+				}
+				cur = false
+			}
+		}
+		return cur
+	}
+	for changed := true; changed; {
+		changed = false
+		for _, b := range f.Blocks {
+			in := len(b.Preds) > 0
+			for _, p := range b.Preds {
+				in = in && out[p]
+			}
+			if o := transfer(b, in, false); o != out[b] {
+				out[b], changed = o, true
+			}
+		}
+	}
+	for _, b := range f.Blocks {
+		in := len(b.Preds) > 0
+		for _, p := range b.Preds {
+			in = in && out[p]
+		}
+		transfer(b, in, true)
+	}
+	if !atStore {
+		return false, ""
+	}
+	for _, h := range handled {
+		if how == "" {
+			how = h
+		}
+	}
+	return true, how + " on every path to the store"
 }
 
 // oldValueParkedForParent: inside a callback closure the old value is stored
